@@ -343,6 +343,10 @@ func runBGV(c *eng.Ctx, cfg bgvCfg) {
 		c.Violate("C07|bgv.Parameters.MaxSlots|wrong-value", fmt.Sprintf("MaxSlots=%d plaintext ring degree=%d", params.MaxSlots(), e.n), cfg)
 	}
 	e.ecd = bgv.NewEncoder(params)
+	if c.Rand().N(3) == 0 {
+		e.ecd = e.ecd.ShallowCopy()
+		c.Count("cases_with_shallow_copied_encoder", 1)
+	}
 	c.Sample(map[string]any{"scheme": "bgv", "cfg": cfg, "slots": e.n, "N": e.N})
 
 	maxL := params.MaxLevel()
